@@ -83,11 +83,11 @@ def run_crossing(ck, w, seed):
 
 
 def run(ck):
-    nx = 160 if not ck.thorough() else 6000
+    nx = 160 if not ck.thorough() else 20000
     for w in range(nx):
         if ck.mine(w):
             run_crossing(ck, w, ck.seed * 1000003 + 4409)
-    n = 96 if not ck.thorough() else 2400
+    n = 96 if not ck.thorough() else 6000
     dh = histories.DH_QUICK if not ck.thorough() else histories.DH_ALL
     base = ck.seed * 1000003 + 11
     for i in range(n):
